@@ -230,7 +230,7 @@ func famOf(line []byte) family {
 }
 
 func emptyObs() *Obs {
-	return &Obs{ErrNames: []S{}, Values: [][]any{}, Pos: [][][]S{}, Retargs: []S{}, Chain: []int{}, Events: []event{}, IsSet: []bool{}}
+	return &Obs{ErrNames: []S{}, ErrList: []S{}, Values: [][]any{}, Pos: [][][]S{}, Retargs: []S{}, Chain: []int{}, Events: []event{}, IsSet: []bool{}}
 }
 
 func init() {
@@ -413,6 +413,8 @@ func main() {
 		cmdWorker(os.Args[2:])
 	case "ftab":
 		cmdFtab(os.Args[2:])
+	case "conv-trees":
+		cmdConvTrees(os.Args[2:])
 	case "gen-session":
 		fs := flag.NewFlagSet("gen-session", flag.ExitOnError)
 		seed := fs.Int64("seed", 1, "")
